@@ -31,6 +31,8 @@ def amap(v):
 
 
 def run(W, chk):
+    from rules.common import borrow
+    borrow(W, chk, "C10", {"AGREE-twin-update", "CUT-withdraw-open-only"}, "the user's and the total weight snapshots move together, for the position's owner")
     A = W.run(FM, "execute", ("Claim",))
     Q = W.run(FM, "query", ("Rewards",))
     sends = A.aggs(r"BankMsg::Send$")
